@@ -66,9 +66,21 @@ struct Ctx {
     /// files that are named like archives but are not (garbage, truncated zip)
     bad_zip: String,
     cut_zip: String,
+    /// an archive whose extraction takes a while (the commands that follow `open` arrive while it is still being extracted)
+    big_zip: String,
+    repo_zip: String,
 }
 
-fn gen_cmd(rng: &mut Rng, m: &Model, cx: &Ctx) -> Cmd {
+/// `force`: selector of the command class (scripted session prefixes); 100 = open the slow-to-extract archive
+fn gen_cmd(rng: &mut Rng, m: &Model, cx: &Ctx, force: Option<u64>) -> Cmd {
+    if force == Some(100) {
+        // many archives in one open: every one is extracted into its own temporary directory (hundreds of ms in total)
+        // (the repository's own compressed example archive: ~1 ms each; the tiny generated one is extracted too quickly)
+        let many = if std::path::Path::new(&cx.repo_zip).exists() { &cx.repo_zip } else { &cx.zip };
+        let mut files: Vec<&String> = vec![many; 200 + rng.usize_below(300)];
+        files.push(&cx.big_zip);
+        return Cmd { text: format!("open {}", json!({"files":files, "sort": rng.chance(1, 4)})), name: "open".into(), kind: "open", malformed: false };
+    }
     let any_id = |rng: &mut Rng, m: &Model| -> (String, bool) {
         // valid, stale, foreign and malformed ids
         let live: Vec<u32> = m.streams.iter().chain(m.queries.iter()).copied().collect();
@@ -89,11 +101,23 @@ fn gen_cmd(rng: &mut Rng, m: &Model, cx: &Ctx) -> Cmd {
             })
             .collect::<Vec<_>>())
     };
-    match rng.below(22) {
+    if let Some(code @ 101..=104) = force {
+        // well-formed id commands on a live id (scripted prefixes)
+        let live: Vec<u32> = m.streams.iter().chain(m.queries.iter()).copied().collect();
+        let id = if live.is_empty() { 1 } else { *rng.pick(&live) };
+        return match code {
+            101 => Cmd { text: format!("stream_binary_search {} time_ms={}", id, 1_600_000_000_000u64 + rng.below(100_000)), name: "stream_binary_search".into(), kind: "binary_search", malformed: false },
+            102 => Cmd { text: format!("stream_binary_search {} index={}", id, rng.below(300)), name: "stream_binary_search".into(), kind: "binary_search", malformed: false },
+            103 => Cmd { text: format!("stream_search {} {}", id, json!({"start_idx": rng.below(50), "max_results": 1 + rng.below(20), "filters": filters(rng)})), name: "stream_search".into(), kind: "search", malformed: false },
+            _ => Cmd { text: format!("stream_change_window {} {},{}", id, rng.below(100), 100 + rng.below(200)), name: "stream_change_window".into(), kind: "change_window", malformed: false },
+        };
+    }
+    match force.unwrap_or_else(|| rng.below(22)) {
         0 | 1 => {
-            let f = match rng.below(14) {
+            let f = match rng.below(16) {
                 0 | 1 => &cx.big,
                 2 | 3 => &cx.zip,
+                14 | 15 => &cx.big_zip,
                 4 => &cx.bad_zip,
                 5 => &cx.cut_zip,
                 _ => &cx.small,
@@ -255,8 +279,19 @@ fn session(rng: &mut Rng, srv: &mut Server, cx: &Ctx, rep: &mut Report, history:
     let mut had_stateful = false;
     let mut kinds: Vec<&'static str> = vec![];
     let panics_before = srv.stderr_panics().len();
+    // 1/6 of the sessions start with a script: open an archive whose extraction takes a while, create a stream at once
+    // and use its id in the commands that take one - they all arrive while the archive is still being extracted
+    let mut script: std::collections::VecDeque<u64> = std::collections::VecDeque::new();
+    if rng.chance(1, 6) {
+        script.push_back(100);
+        script.push_back(6);
+        for _ in 0..2 + rng.usize_below(4) {
+            script.push_back(if rng.chance(2, 3) { 101 + rng.below(4) } else { 10 + rng.below(8) });
+        }
+        rep.inc("sessions_with_commands_during_archive_extraction");
+    }
     for _ in 0..n {
-        let c = gen_cmd(rng, &m, cx);
+        let c = gen_cmd(rng, &m, cx, script.pop_front());
         history.push(c.text.chars().take(200).collect());
         rep.inc("commands");
         rep.inc(&format!("cmd_{}{}", c.kind, if c.malformed { "_malformed" } else { "" }));
@@ -274,6 +309,9 @@ fn session(rng: &mut Rng, srv: &mut Server, cx: &Ctx, rep: &mut Report, history:
                     m.stale.push(*id);
                 }
             }
+        }
+        if std::env::var("VMON_C15_TRACE").is_ok() {
+            eprintln!("TRACE {} -> {:?} ({} frames before)", c.text.chars().take(90).collect::<String>(), reply.as_ref().map(|r| r.chars().take(80).collect::<String>()), before.len());
         }
         let reply = match reply {
             Some(r) => r,
@@ -495,7 +533,13 @@ pub fn run(p: &Params) -> Report {
         let z = std::fs::read(&zip).unwrap();
         std::fs::write(&cut_zip, &z[..z.len() * 2 / 3]).unwrap();
     }
-    let cx = Ctx { small: small.to_string_lossy().to_string(), big: big.to_string_lossy().to_string(), zip: zip.to_string_lossy().to_string(), bad_zip: bad_zip.to_string_lossy().to_string(), cut_zip: cut_zip.to_string_lossy().to_string() };
+    let big_zip = dir.path().join("slow.zip");
+    {
+        let data = std::fs::read(&big).unwrap();
+        let members: Vec<crate::c20::Member> = (0..4).map(|k| crate::c20::Member { name: format!("part{}.dlt", k), data: data.clone() }).collect();
+        std::fs::write(&big_zip, crate::c20::write_zip(&members)).unwrap();
+    }
+    let cx = Ctx { repo_zip: "/repo/tests/lc_ex002.zip".to_string(), big_zip: big_zip.to_string_lossy().to_string(), small: small.to_string_lossy().to_string(), big: big.to_string_lossy().to_string(), zip: zip.to_string_lossy().to_string(), bad_zip: bad_zip.to_string_lossy().to_string(), cut_zip: cut_zip.to_string_lossy().to_string() };
     let mut srv: Option<Server> = None;
     let mut i = 0u64;
     while (p.cases == 0 || i < p.cases) && !p.time_up() {
